@@ -110,6 +110,23 @@ type doc
 		}, [][3]string{{"doc:big", "viewer", "user:zz"}, {"doc:big", "viewer", "user:u990"}, {"doc:d5", "viewer", "user:a"}},
 			[][3]string{{"doc", "viewer", "user:a"}, {"doc", "viewer", "user:zz"}},
 			[][2]string{{"doc:big", "viewer"}}},
+		// Check only: decided by one of the first of many usersets, so the request is over while the producer of
+		// the remaining dispatches is still busy (plain dispatch forced); every deadline class incl. none
+		{"early-allow-fanout", `model
+  schema 1.1
+type user
+type group
+  relations
+    define member: [user, group#member]
+type doc
+  relations
+    define viewer: [group#member]`, func() []*openfgav1.TupleKey {
+			var t []*openfgav1.TupleKey
+			for i := 0; i < fan; i++ {
+				t = append(t, tk("doc:big", "viewer", fmt.Sprintf("group:g%03d#member", i)))
+			}
+			return append(t, tk("group:g000", "member", "user:a"), tk("group:g001", "member", "user:a"))
+		}, [][3]string{{"doc:big", "viewer", "user:a"}, {"doc:big", "viewer", "user:a"}, {"doc:big", "viewer", "user:a"}, {"doc:big", "viewer", "user:a"}, {"doc:big", "viewer", "user:a"}}, nil, nil},
 		// ListUsers only: the subtracted operand of an exclusion leads into a chain of nested groups (below the
 		// depth limit) read at 350 ms per datastore call, so that branch alone needs ~8 s: deadline and
 		// cancellation have to reach the subtracted branch too, not just the base
@@ -300,6 +317,9 @@ type doc
 				break
 			}
 			d.stores = append(d.stores, store)
+			if sc.name == "early-allow-fanout" {
+				drive.ForceStore(store, "default")
+			}
 		}
 		if ok {
 			all = append(all, d)
